@@ -231,6 +231,41 @@ func runC06(c *Ctx, r *Rec) {
 			continue
 		}
 
+		// what the helper returned belongs to the caller: the goroutine does not change it afterwards
+		if name != "Join" {
+			mut := ""
+			var scan func(body ast.Node, obj types.Object, sinfo *types.Info, depth int)
+			scan = func(body ast.Node, obj types.Object, sinfo *types.Info, depth int) {
+				ast.Inspect(body, func(x ast.Node) bool {
+					call, ok := x.(*ast.CallExpr)
+					if !ok {
+						return true
+					}
+					if rx, mname, _, ok := methodCall(call); ok && isObj(sinfo, rx, obj) && (listMutators[mname] || mname == "RemoveValues" || mname == "InsertValue" || mname == "InsertValues" || mname == "AppendValues" || mname == "SetValue" || mname == "SetValues") {
+						mut = fmt.Sprintf("%s.%s at %s", exprStr(rx), mname, c.pos(call.Pos()))
+					}
+					if depth < 2 {
+						if cf := calleeOf(sinfo, call); cf != nil && !cf.Exported() {
+							if hd := c.declOf(cf.Origin()); hd != nil && hd.Body != nil && c.infoFor(hd) == sinfo {
+								hps := paramObjs(sinfo, hd)
+								for ai, a := range call.Args {
+									if ai < len(hps) && isObj(sinfo, a, obj) {
+										scan(hd.Body, hps[ai], sinfo, depth+1)
+									}
+								}
+							}
+						}
+					}
+					return true
+				})
+			}
+			scan(gbody, retObj, info, 0)
+			if mut != "" {
+				r.fail("D2-result-left-to-the-caller", construct, c.pos(goStmt.Pos()), fmt.Sprintf("the goroutine changes the sequence of output queues that the helper has already returned to its caller (%s): the caller's sequence loses or gains queues behind its back", mut))
+			} else {
+				r.ok("D2-result-left-to-the-caller", construct, c.pos(goStmt.Pos()), "the goroutine only reads the sequence it returned")
+			}
+		}
 		if name == "Join" {
 			// D2: output.CloseQueue() at top level after the loop
 			closed := false
